@@ -370,11 +370,41 @@ Proof.
 Qed.
 
 (* what prop_ok says of a router case, unfolded *)
-Definition req_judged (T : table) (nf na : bool) (q : req) : Prop :=
-  match clean_path (qp q) with
-  | Some segs => obs_ok T nf na (qm q) segs (qres q)
-  | None => qres q = (if nf then RNotFoundCustom else RNotFound)
+Definition judged_one (T : table) (nf na : bool) (m p : string) (r : response) : Prop :=
+  match clean_path p with
+  | Some segs => obs_ok T nf na m segs r
+  | None => r = (if nf then RNotFoundCustom else RNotFound)
   end.
+
+Lemma response_ok_judged : forall T nf na m p r,
+  response_ok T nf na (mkReq m p "" r []) = true <-> judged_one T nf na m p r.
+Proof.
+  intros T nf na m p r. unfold judged_one. destruct (clean_path p) as [segs|] eqn:CP.
+  - apply (L_response_ok_iff T nf na (mkReq m p "" r []) segs). exact CP.
+  - apply (L_response_ok_unrooted T nf na (mkReq m p "" r [])). exact CP.
+Qed.
+
+Lemma response_ok_fields : forall T nf na q,
+  response_ok T nf na q = response_ok T nf na (mkReq (qm q) (qp q) "" (qres q) []).
+Proof. intros T nf na [m p c r l]. reflexivity. Qed.
+
+(* the first read and every later read of the variables of a dispatched request *)
+Definition lates_judged (T : table) (nf na : bool) (m p : string) (r : response) (l : list params) : Prop :=
+  match r with
+  | RHandler h _ => Forall (fun ps => judged_one T nf na m p (RHandler h ps)) l
+  | _ => l = []
+  end.
+
+Lemma lates_ok_iff : forall T nf na m p r l,
+  lates_ok T nf na m p r l = true <-> lates_judged T nf na m p r l.
+Proof.
+  intros T nf na m p r l. unfold lates_ok, lates_judged.
+  destruct r as [h ps|a| | |]; try (destruct l; split; congruence).
+  rewrite forallb_forall, Forall_forall. split; intros H x I; apply response_ok_judged; apply H; exact I.
+Qed.
+
+Definition req_judged (T : table) (nf na : bool) (q : req) : Prop :=
+  judged_one T nf na (qm q) (qp q) (qres q) /\ lates_judged T nf na (qm q) (qp q) (qres q) (qlate q).
 
 Lemma L_r_prop_ok_iff : forall c,
   r_prop_ok c = true <->
@@ -386,14 +416,24 @@ Proof.
   destruct (one_var_name_per_position (table_of (cregs c))).
   2: { split; [intros _ H; discriminate | reflexivity]. }
   rewrite andb_true_iff, list_eqb_verdict, forallb_forall, Forall_forall.
-  assert (J : forall q, response_ok (table_of (cregs c)) (cnf c) (cna c) q = true <->
+  assert (J : forall q, response_ok (table_of (cregs c)) (cnf c) (cna c) q
+                        && lates_ok (table_of (cregs c)) (cnf c) (cna c) (qm q) (qp q) (qres q) (qlate q) = true <->
                         req_judged (table_of (cregs c)) (cnf c) (cna c) q).
-  { intro q. unfold req_judged. destruct (clean_path (qp q)) as [segs|] eqn:CP.
-    - apply L_response_ok_iff. exact CP.
-    - apply L_response_ok_unrooted. exact CP. }
+  { intro q. unfold req_judged. rewrite andb_true_iff, response_ok_fields, response_ok_judged, lates_ok_iff.
+    reflexivity. }
   split.
   - intros [E F] _. split; [symmetry; exact E|]. intros q I. apply J. apply F. exact I.
   - intro H. destruct (H eq_refl) as [E F]. split; [symmetry; exact E|]. intros q I. apply J. apply F. exact I.
+Qed.
+
+(* the verified model hands the SAME bindings to every read: they pass as the first read does *)
+Lemma lates_ok_same : forall T nf na m p r l,
+  response_ok T nf na (mkReq m p "" r []) = true ->
+  match r with RHandler _ ps => Forall (eq ps) l | _ => l = [] end ->
+  lates_ok T nf na m p r l = true.
+Proof.
+  intros T nf na m p r l H S. unfold lates_ok. destruct r as [h ps|a| | |]; try (subst l; reflexivity).
+  apply forallb_forall. intros x I. rewrite Forall_forall in S. rewrite <- (S x I). exact H.
 Qed.
 
 (* ------------------------------------------------- the same at server level *)
@@ -410,27 +450,35 @@ Lemma L_server_model_passes : forall s q r,
   start_of (wstarts (run opt_real (scfgs s) (stables s) (sevents s))) (sqs q) = Some (Started r) ->
   let c := nth (sqs q) (scfgs s) default_cfg in
   In (sqres q) (sserve_allowed (sc_cors c) r (sqm q) (sqp q)) ->
+  match sqres q with
+  | SResp (RHandler _ ps) => Forall (eq ps) (sqlate q)      (* every later read = the first one *)
+  | _ => sqlate q = []
+  end ->
   sreq_ok s q = true.
 Proof.
-  intros s q r ST c I. unfold sreq_ok. destruct (negb (server_in_scope s (sqs q))); [reflexivity|].
+  intros s q r ST c I LT. unfold sreq_ok. destruct (negb (server_in_scope s (sqs q))); [reflexivity|].
   fold c. unfold user_regs.
   destruct (L_server_dispatch _ _ _ _ _ ST) as [E [A [_ _]]]. fold c in E.
   set (regs := spec_regs (stables s) (before_start (sqs q) (sevents s)) (sqs q)) in *.
   rewrite (first_error_none _ A).
-  unfold sresponse_ok, sserve_allowed in *. destruct (sc_cors c) eqn:CORS.
+  apply andb_true_iff. unfold sresponse_ok, slates_ok, sserve_allowed in *. destruct (sc_cors c) eqn:CORS.
   - cbn [andb] in I. destruct (sqm q =? "OPTIONS").
-    + destruct I as [I|[]]. rewrite <- I. reflexivity.
-    + apply in_map_iff in I. destruct I as [x [EQ I]]. rewrite <- EQ. subst r. rewrite orb_true_r in I.
-      pose proof (L_model_passes_judgement (sc_nf c) true regs (mkReq (sqm q) (sqp q) "" x) I) as J.
-      destruct x as [h ps|a| | |]; cbn [cors_view]; try exact J.
+    + destruct I as [I|[]]. rewrite <- I in *. rewrite LT. split; reflexivity.
+    + apply in_map_iff in I. destruct I as [x [EQ I]]. rewrite <- EQ in *. subst r. rewrite orb_true_r in I.
+      pose proof (L_model_passes_judgement (sc_nf c) true regs (mkReq (sqm q) (sqp q) "" x []) I) as J.
+      destruct x as [h ps|a| | |]; cbn [cors_view] in *.
+      * split; [exact J | apply lates_ok_same; assumption].
       * exfalso. unfold response_ok in J. cbn [qp qm qres] in J.
         destruct (clean_path (sqp q)); [|destruct (sc_nf c); discriminate].
         destruct (candidates _ _ _); [|discriminate]. destruct (allow_spec _ _ _); discriminate.
-      * rewrite J. apply orb_true_r.
-      * rewrite J. reflexivity.
-  - cbn [andb] in I. apply in_map_iff in I. destruct I as [x [EQ I]]. rewrite <- EQ. subst r.
+      * rewrite J, LT. split; [apply orb_true_r | reflexivity].
+      * rewrite J, LT. split; reflexivity.
+      * rewrite LT. split; [exact J | reflexivity].
+  - cbn [andb] in I. apply in_map_iff in I. destruct I as [x [EQ I]]. rewrite <- EQ in *. subst r.
     rewrite orb_false_r in I.
-    exact (L_model_passes_judgement (sc_nf c) (sc_na c) regs (mkReq (sqm q) (sqp q) "" x) I).
+    pose proof (L_model_passes_judgement (sc_nf c) (sc_na c) regs (mkReq (sqm q) (sqp q) "" x []) I) as J.
+    split; [exact J|]. apply lates_ok_same; [exact J|].
+    destruct x; exact LT.
 Qed.
 
 (* and what a passing judgement means for a server without CORS: the full case table over the
@@ -449,8 +497,22 @@ Proof.
   - unfold first_error in FE. unfold all_ok. apply Forall_forall. intros e I.
     pose proof (find_none _ _ FE e I) as N. cbn beta in N. apply negb_false_iff in N.
     destruct e; try discriminate. reflexivity.
-  - unfold sresponse_ok in H. rewrite NC, ER in H.
-    apply (L_response_ok_iff _ _ _ (mkReq (sqm q) (sqp q) "" resp) segs CP). exact H.
+  - apply andb_true_iff in H. destruct H as [H _]. unfold sresponse_ok in H. rewrite NC, ER in H.
+    apply (L_response_ok_iff _ _ _ (mkReq (sqm q) (sqp q) "" resp []) segs CP). exact H.
+Qed.
+
+(* ... and every later read of the variables of a dispatched request was judged like the first *)
+Lemma L_server_lates_judged : forall s q resp,
+  server_in_scope s (sqs q) = true ->
+  let c := nth (sqs q) (scfgs s) default_cfg in
+  sc_cors c = false -> sqres q = SResp resp ->
+  sreq_ok s q = true ->
+  lates_judged (table_of (user_regs s (sqs q))) (sc_nf c) (sc_na c) (sqm q) (sqp q) resp (sqlate q).
+Proof.
+  intros s q resp SC c NC ER H. unfold sreq_ok in H. rewrite SC in H. cbn [negb] in H. fold c in H.
+  destruct (first_error (reg_results [] (user_regs s (sqs q)))); [discriminate|].
+  apply andb_true_iff in H. destruct H as [_ H]. unfold slates_ok in H. rewrite NC, ER in H.
+  apply lates_ok_iff. exact H.
 Qed.
 
 (* ------------------------------ the case table determines the response; order of registration *)
@@ -547,4 +609,68 @@ Proof.
     + apply (resp_ok_same_routes (table_of regs')); [intro t; symmetry; apply EQ|].
       eapply L_serve_cases. exact CP.
   - rewrite !L_unrooted_not_found by exact CP. destruct nf; exact I.
+Qed.
+
+(* ------------------------------------------------ request histories: the variables of request i
+   are a function of (table, request i) only *)
+From GZ Require Import C09.History.
+
+Lemma lookup_nat_in : forall A i (a : A) l, lookup_nat i l = Some a -> In (i, a) l.
+Proof.
+  induction l as [|[j b] l IH]; cbn; intro H; [discriminate|].
+  destruct (Nat.eqb j i) eqn:E; [apply Nat.eqb_eq in E; left; congruence | right; apply IH; exact H].
+Qed.
+
+(* every read of every schedule returns the bindings of the reading request itself, whatever else
+   was served, returned or read before, in between or concurrently *)
+Lemma L_reads_are_own_bindings : forall r reqs sched i ps,
+  In (i, ps) (hreads (hrun r reqs sched)) -> ps = vars_of r (req_at reqs i).
+Proof.
+  intros r reqs sched. unfold hrun.
+  assert (G : forall st,
+            (forall i ps, In (i, ps) (hmaps st) -> ps = vars_of r (req_at reqs i)) ->
+            (forall i ps, In (i, ps) (hreads st) -> ps = vars_of r (req_at reqs i)) ->
+            forall i ps, In (i, ps) (hreads (fold_left (hstep r reqs) sched st)) ->
+                         ps = vars_of r (req_at reqs i)).
+  { induction sched as [|e sched IH]; intros st HM HR; [exact HR|]. cbn [fold_left]. apply IH.
+    - destruct e as [j|j|j]; cbn [hstep].
+      + cbn [hmaps]. intros i ps [E|I]; [inversion E; reflexivity | apply HM; exact I].
+      + exact HM.
+      + destruct (lookup_nat j (hmaps st)); exact HM.
+    - destruct e as [j|j|j]; cbn [hstep].
+      + exact HR.
+      + exact HR.
+      + destruct (lookup_nat j (hmaps st)) as [ps0|] eqn:L; [|exact HR].
+        cbn [hreads]. intros i ps [E|I]; [|apply HR; exact I].
+        inversion E; subst. apply HM. apply lookup_nat_in. exact L. }
+  apply G; intros i ps [].
+Qed.
+
+(* ... hence independent of every OTHER request of the history: replace them all *)
+Lemma L_reads_independent_of_other_requests : forall r reqs reqs' sched sched' i ps ps',
+  req_at reqs i = req_at reqs' i ->
+  In (i, ps) (hreads (hrun r reqs sched)) -> In (i, ps') (hreads (hrun r reqs' sched')) -> ps = ps'.
+Proof.
+  intros r reqs reqs' sched sched' i ps ps' E H H'.
+  rewrite (L_reads_are_own_bindings _ _ _ _ _ H), (L_reads_are_own_bindings _ _ _ _ _ H'), E. reflexivity.
+Qed.
+
+(* and they are the bindings of the best route (inside the side condition) *)
+Lemma L_reads_are_best_route_bindings : forall nf na regs reqs sched i ps segs t,
+  In (i, ps) (hreads (hrun (router_of nf na regs) reqs sched)) ->
+  clean_path (snd (req_at reqs i)) = Some segs ->
+  one_var_name_per_position (table_of regs) = true ->
+  is_best (table_of regs) (fst (req_at reqs i)) segs t ->
+  ps = binds (tpat t) segs.
+Proof.
+  intros nf na regs reqs sched i ps segs t H CP W B.
+  rewrite (L_reads_are_own_bindings _ _ _ _ _ H). unfold vars_of.
+  pose proof (L_serve_cases nf na regs (fst (req_at reqs i)) (snd (req_at reqs i)) segs CP) as R.
+  destruct (serve (router_of nf na regs) (fst (req_at reqs i)) (snd (req_at reqs i))) as [h ps0|a| | |] eqn:S;
+    cbn in R.
+  - destruct R as [t' [B' [_ P]]]. assert (t' = t) by (eapply L_best_is_unique; eassumption). subst. reflexivity.
+  - exfalso. destruct R as [_ [NO _]]. destruct B as [I [E [M _]]]. exact (NO t I E M).
+  - exfalso. destruct R as [_ [NO _]]. destruct B as [I [E [M _]]]. exact (NO t I E M).
+  - exfalso. destruct R as [_ N]. destruct B as [I [_ [M _]]]. exact (N t I M).
+  - exfalso. destruct R as [_ N]. destruct B as [I [_ [M _]]]. exact (N t I M).
 Qed.
